@@ -324,6 +324,12 @@ def stream_ops(seed, count, prefix="R"):
                 lines.append(rng.choice([b"not json", b"[1,2]", b'{"a":1} x', b'{"trunc":']))
             else:
                 lines.append(b'{"a":"' + b"y" * rng.choice([10, 65520, 65527, 65528, 65529, 65530, 70000]) + b'"}')
+        if rng.chance(1, 3):
+            # the same entry twice in a row (and once more at the end): every occurrence is a line of its own
+            j = rng.below(len(lines))
+            lines.insert(j, lines[j])
+            if rng.chance(1, 2):
+                lines.append(lines[j])
         sep = b"\r\n" if rng.chance(1, 3) else b"\n"
         data = sep.join(lines) + (sep if rng.chance(2, 3) else b"")
         faults = []
